@@ -214,11 +214,12 @@ func (rw *rewriter) pkgPath(x ast.Expr) string {
 }
 
 var selMap = map[string]map[string]string{
-	"sync":      {"Pool": "Pool", "Mutex": "Mutex", "RWMutex": "RWMutex", "WaitGroup": "WaitGroup", "Cond": "Cond", "NewCond": "NewCond", "Once": "Once"},
-	"time":      {"Now": "Now", "Since": "Since", "Sleep": "Sleep"},
-	"os":        {"Stat": "OsStat", "ReadFile": "OsReadFile", "WriteFile": "OsWriteFile", "MkdirAll": "OsMkdirAll", "ReadDir": "OsReadDir", "Remove": "OsRemove", "Open": "OsOpen", "Create": "OsCreate", "OpenFile": "OsOpenFile"},
-	"maps":      {"Keys": "MapsKeys", "Values": "MapsValues", "All": "MapsAll"},
-	"math/rand": {"Intn": "RandIntn", "Int31": "RandInt31", "Int31n": "RandInt31n", "Int63": "RandInt63", "Int63n": "RandInt63n", "Int": "RandInt", "Float64": "RandFloat64", "Seed": "RandSeed", "Perm": "RandPerm", "Shuffle": "RandShuffle"},
+	"sync":         {"Pool": "Pool", "Mutex": "Mutex", "RWMutex": "RWMutex", "WaitGroup": "WaitGroup", "Cond": "Cond", "NewCond": "NewCond", "Once": "Once"},
+	"time":         {"Now": "Now", "Since": "Since", "Sleep": "Sleep"},
+	"os":           {"Stat": "OsStat", "ReadFile": "OsReadFile", "WriteFile": "OsWriteFile", "MkdirAll": "OsMkdirAll", "ReadDir": "OsReadDir", "Remove": "OsRemove", "Open": "OsOpen", "Create": "OsCreate", "OpenFile": "OsOpenFile"},
+	"maps":         {"Keys": "MapsKeys", "Values": "MapsValues", "All": "MapsAll"},
+	"math/rand":    {"Intn": "RandIntn", "Int31": "RandInt31", "Int31n": "RandInt31n", "Int63": "RandInt63", "Int63n": "RandInt63n", "Int": "RandInt", "Float64": "RandFloat64", "Seed": "RandSeed", "Perm": "RandPerm", "Shuffle": "RandShuffle"},
+	"math/rand/v2": {"IntN": "Rand2IntN", "Int": "Rand2Int", "Int32": "Rand2Int32", "Int32N": "Rand2Int32N", "Int64": "Rand2Int64", "Int64N": "Rand2Int64N", "Uint32": "Rand2Uint32", "Uint64": "Rand2Uint64", "Float64": "Rand2Float64", "Perm": "Rand2Perm", "Shuffle": "Rand2Shuffle"},
 }
 
 func simrtSel(name string) *ast.SelectorExpr {
@@ -423,7 +424,7 @@ func (rw *rewriter) file(f *ast.File) {
 	if used {
 		astutil.AddImport(rw.fset, f, "simrt")
 	}
-	for _, p := range []string{"sync", "time", "os", "math/rand", "maps"} {
+	for _, p := range []string{"sync", "time", "os", "math/rand", "math/rand/v2", "maps"} {
 		if !astutil.UsesImport(f, p) {
 			astutil.DeleteImport(rw.fset, f, p)
 		}
